@@ -21,7 +21,7 @@ CONSTANT Props,       \* the property ids whose clauses are judged in this run
 VARIABLE ctx
 vars == <<shard, l, doc, rest, status, ctx>>
 
-NoCtx == [a |-> Void, b |-> Void, o |-> NoOpt, d |-> <<>>, n |-> 0, mode |-> "dp"]
+NoCtx == [a |-> Void, b |-> Void, o |-> NoOpt, d |-> <<>>, n |-> 0, mode |-> "dp", t |-> 0]
 Judge(p) == p \in Props
 Rd == Reading(ctx.o)
 ListMode(o) == Reading(o) = "list" /\ ~o.merge
@@ -30,7 +30,7 @@ Init == CoreInit /\ doc = Void /\ rest = <<>> /\ status = "idle" /\ ctx = NoCtx
 
 TBegin ==
   /\ IsEvent("Begin") /\ Consume
-  /\ ctx' = [a |-> Rec.a, b |-> Rec.b, o |-> Rec.opts, d |-> <<>>, n |-> 0, mode |-> "dp"]
+  /\ ctx' = [a |-> Rec.a, b |-> Rec.b, o |-> Rec.opts, d |-> <<>>, n |-> 0, mode |-> "dp", t |-> 0]
   /\ doc' = Rec.a /\ rest' = <<>> /\ status' = "idle"
 
 (* ---- the diff as returned ------------------------------------------------ *)
@@ -66,7 +66,7 @@ TTarget ==
   /\ doc' = Rec.c
   /\ rest' = SubDiff(ctx.d, Rec.sub)
   /\ status' = "run"
-  /\ ctx' = [ctx EXCEPT !.mode = "pt", !.n = Len(Rec.sub)]
+  /\ ctx' = [ctx EXCEPT !.mode = "pt", !.n = Len(Rec.sub), !.t = Rec.t]
 
 (* ---- one hunk -------------------------------------------------------------- *)
 StepAgrees ==
@@ -74,6 +74,13 @@ StepAgrees ==
   \/ IsAmb(r)
   \/ Rec.res.st = "ok"  /\ ~Bad(r) /\ EqR(r, Rec.res.doc, Rd)
   \/ Rec.res.st = "err" /\ IsErr(r)
+
+AgreesD(dev) ==
+  LET r == ApplyHunkD(doc, Head(rest), dev) IN
+  \/ Rec.res.st = "ok"  /\ ~Bad(r) /\ EqR(r, Rec.res.doc, Rd)
+  \/ Rec.res.st = "err" /\ IsErr(r)
+Explained == \E D \in KnownDevs : AgreesD({D})
+StepProp == IF ListMode(ctx.o) THEN "C03" ELSE "C08"
 
 LiteralC01 ==
   (Judge("C01") /\ ctx.mode = "dp" /\ Rec.k = ctx.n) => Check(Rec.res.st = "ok", "C01", "patch")
@@ -92,17 +99,24 @@ TStepAmb ==
   /\ IsEvent("PatchStep") /\ status = "run"
   /\ Ambiguous
   /\ Consume /\ UNCHANGED ctx /\ LiteralC01 /\ Crash
+TStepKnown ==     \* the step disagrees with the semantics but is exactly what a listed deviation predicts
+  /\ IsEvent("PatchStep") /\ status = "run" /\ ~StepAgrees /\ Explained
+  /\ Consume /\ UNCHANGED ctx /\ LiteralC01 /\ Crash
+  /\ Judge(StepProp) =>
+        PrintT(<<"JDV-KNOWN", Rec.sess, StepProp, CHOOSE D \in KnownDevs : AgreesD({D}), ctx.t, Rec.k, Rec.res.st>>)
+  /\ IF Rec.res.st = "ok" THEN Advance(Rec.res.doc)
+     ELSE status' = "err" /\ UNCHANGED <<doc, rest>>
 TStepMismatch ==
-  /\ IsEvent("PatchStep") /\ status = "run" /\ ~StepAgrees
+  /\ IsEvent("PatchStep") /\ status = "run" /\ ~StepAgrees /\ ~Explained
   /\ Consume /\ UNCHANGED <<ctx, doc, rest>> /\ status' = "skip"
   /\ LiteralC01 /\ Crash
   /\ IF ctx.mode = "pt" THEN
-        /\ (Judge("C03") /\ ListMode(ctx.o)) => FailLine("C03", <<"step", Rec.k, Rec.res.st>>)
-        /\ (Judge("C08") /\ ~ListMode(ctx.o)) => FailLine("C08", <<"step", Rec.k, Rec.res.st>>)
+        /\ (Judge("C03") /\ ListMode(ctx.o)) => FailLine("C03", <<"step", ctx.t, Rec.k, Rec.res.st>>)
+        /\ (Judge("C08") /\ ~ListMode(ctx.o)) => FailLine("C08", <<"step", ctx.t, Rec.k, Rec.res.st>>)
      ELSE
         /\ Judge("C01") => NoteLine("C01", <<"bind", Rec.k, Rec.res.st>>)
-        /\ (Judge("C03") /\ ListMode(ctx.o)) => FailLine("C03", <<"step", Rec.k, Rec.res.st>>)
-        /\ (Judge("C08") /\ ~ListMode(ctx.o)) => FailLine("C08", <<"step", Rec.k, Rec.res.st>>)
+        /\ (Judge("C03") /\ ListMode(ctx.o)) => FailLine("C03", <<"step", ctx.t, Rec.k, Rec.res.st>>)
+        /\ (Judge("C08") /\ ~ListMode(ctx.o)) => FailLine("C08", <<"step", ctx.t, Rec.k, Rec.res.st>>)
 TStepAfter ==      \* the machine has stopped (error, ambiguity, mismatch): the event is consumed unjudged
   /\ IsEvent("PatchStep") /\ status # "run"
   /\ Consume /\ UNCHANGED <<ctx, doc, rest, status>> /\ LiteralC01 /\ Crash
@@ -128,7 +142,7 @@ TEnd ==
 
 Next ==
   \/ TBegin \/ TDiff \/ TTarget
-  \/ TStepOk \/ TStepErr \/ TStepAmb \/ TStepMismatch \/ TStepAfter
+  \/ TStepOk \/ TStepErr \/ TStepAmb \/ TStepKnown \/ TStepMismatch \/ TStepAfter
   \/ TEquals \/ TEqualsAB \/ TEnd
   \/ (Done /\ UNCHANGED <<doc, rest, status, ctx>>)
 
